@@ -14,7 +14,7 @@ RULE = ("histories of kernel events (spawn/exit->zombie/reap/PID reuse/clock ste
 TRUSTED = PC.TRUSTED
 ASSUMPTIONS = PC.ASSUMPTIONS
 EXHAUSTIVE = {}
-SPEC_KINDS = ("isrun", "eq", "hasheq", "eqother", "bind")
+SPEC_KINDS = ("isrun", "eq", "hasheq", "eqother", "bind", "waitprocs")
 N = {"quick": 900, "thorough": 14000, "search": 2500}
 
 
